@@ -1,8 +1,8 @@
 package props
 
 import (
-	"go/token"
 	"fmt"
+	"go/token"
 	"go/types"
 	"sort"
 	"strings"
@@ -452,7 +452,7 @@ func checkHandOver(c *core.Ctx, r *core.Report) {
 	addToMeta := c.Obj(pkgMeta, "AddSegMetaToMetadata")
 	cleanup := c.Obj(pkgWriter, "CleanupUnrotatedSegment")
 	removeUnrot := c.Obj(pkgWriter, "removeSegKeyFromUnrotatedInfo")
-	checkOrder(c, r, rotate, "AddSegMetaToMetadata", sm.mustPred(objs(addToMeta)), "removal from the unrotated table", sm.mayPred(objs(cleanup, removeUnrot)), 1,
+	checkOrderDeep(c, r, sm, rotate, "AddSegMetaToMetadata", objs(addToMeta), "removal from the unrotated table", objs(cleanup, removeUnrot), true, 1,
 		"a segment must be visible as rotated before it disappears from the unrotated table, otherwise a concurrent search sees it in neither")
 	// reader side: every function that (directly) takes both snapshots reads unrotated first
 	unrot := c.Obj(pkgWriter, "FilterUnrotatedSegmentsInQuery")
